@@ -64,7 +64,7 @@ def run(tier, rep):
         base_o = observables(bo, run_job(bo))
         for pol in POLS:
             for rtf in (0, 8):
-                if rtf == 8 and tier == "quick" and hn not in ("H1", "H3"):
+                if rtf == 8 and tier == "quick" and hn != "H1":
                     continue
                 deep[(hn, pol, f"rtf{rtf}", "step")] = dict(spec=sp, user=step_user, policy=pol, rtf=rtf, baseline=base)
                 deep[(hn, pol, f"rtf{rtf}", "run")] = dict(spec=sp, user=run_user, policy=pol, rtf=rtf, baseline=base)
